@@ -166,6 +166,16 @@ def check(run: Run) -> None:
 
     install_by_func = {i.fa.fi.fqn: i for i in installs}
 
+    # ---------------------------------------------------------------- R16.9 (= C17 R17.5)
+    run.rule("R16.9", "an error means nothing was installed: after os.replace has succeeded no error envelope is returned and no statement can raise into a handler that returns one (a failure reported after the rename leaves the NEW bytes in place while the caller is told the write failed)", INSTALL_MIN)
+    from . import c17
+
+    for i in installs:
+        if i.replace is None:
+            continue
+        c17.learn_error_helpers(i.fa.fi.module)
+        c17.check_no_error_after_replace(run, "R16.9", i.fa.fi.module, i.fa.fi, i.fa.cfg, i.node(i.replace), i)
+
     # ---------------------------------------------------------------- R16.1
     for fi in run.project.all_functions():
         for n in walk_no_nested(fi.node):
